@@ -196,8 +196,14 @@ def run_batch(check, ctx, nruns, budget_s, selftest_every=0, hard_timeout_s=None
                     os.kill(w["pid"], signal.SIGKILL)
                 except OSError:
                     pass
-            raise HarnessError("wall-clock limit exceeded (workers killed); started runs: %s"
-                               % [w["started"] for w in workers])
+            # the runs that were in flight are looked at alone afterwards: one that does not finish there either, with a
+            # limit hundreds of times what a run takes, is a hang of the code under test; otherwise the batch was just slow
+            stuck = [w["started"] for w in workers if w.get("started") is not None and w["started"] not in w["finished"]]
+            if not stuck:
+                raise HarnessError("wall-clock limit exceeded (workers killed) before any run started")
+            for i_ in stuck:
+                crashes.append({"i": i_, "status": "stuck"})
+            return results, crashes, True
         rl, _, _ = select.select([w["fd"] for w in workers], [], [], 1.0)
         for w in list(workers):
             if w["fd"] not in rl:
@@ -308,6 +314,8 @@ def run_sequence_isolated(check, ctx, verif_seed, indices, timeout_s=600):
 
 
 def status_text(status):
+    if status == "stuck":
+        return "stuck"
     if os.WIFSIGNALED(status):
         return "signal-%d" % os.WTERMSIG(status)
     code = os.WEXITSTATUS(status)
@@ -374,7 +382,7 @@ def _main(check, ctx, args, t0):
     if args.replay:
         rp = json.load(open(args.replay))
         if rp.get("sequence"):
-            kind, res = run_sequence_isolated(check, ctx, rp["sequence"]["verif_seed"], rp["sequence"]["indices"])
+            kind, res = run_sequence_isolated(check, ctx, rp["sequence"]["verif_seed"], rp["sequence"]["indices"], timeout_s=900)
         else:
             kind, res = run_single_isolated(check, ctx, rp["desc"])
         if kind == "res":
@@ -387,6 +395,10 @@ def _main(check, ctx, args, t0):
             return 0
         if kind == "crash":
             print("replay reproduces: class=crash:%s" % status_text(res))
+            print("VIOLATION property=%s replay=%s" % (check.id, args.replay))
+            return 1
+        if (rp.get("violation") or {}).get("class") == "hang":
+            print("replay reproduces: class=hang (no result within the time limit)")
             print("VIOLATION property=%s replay=%s" % (check.id, args.replay))
             return 1
         raise HarnessError("replay timed out")
@@ -458,6 +470,7 @@ def _main(check, ctx, args, t0):
             new_keys.setdefault(key, []).append(r)
     # crashed runs: confirm in isolation, then report
     flaky_crashes = []
+    slow_batch = []
     confirmed_kinds = {}
     for c in sorted(crashes, key=lambda c: (c["i"] is None, c["i"])):
         i = c["i"]
@@ -481,7 +494,26 @@ def _main(check, ctx, args, t0):
                 confirmed_kinds[kind_txt] = new_keys.setdefault(key, [])
             confirmed_kinds[kind_txt].append(rec)
         elif kind == "timeout":
-            raise HarnessError("run %d died in the batch and hangs in isolation" % i)
+            v = {"class": "hang", "key": "hang:" + str(desc.get("entry", "")),
+                 "detail": "the run did not finish within the wall-clock limit of the batch, nor within 300 s when repeated alone "
+                           "(no progress: a loop of the code under test does not terminate on this input)"}
+            key = (check.id, v["key"])
+            rec = {"i": i, "viol": v, "desc": desc}
+            (known_hit if key in open_keys else new_keys).setdefault(key, []).append(rec)
+            confirmed_kinds[kind_txt] = (known_hit if key in open_keys else new_keys)[key]
+        elif c["status"] == "stuck" and run_sequence_isolated(
+                check, ctx, ctx.seed, [j for j in range(i % max(1, min(ctx.jobs, nruns)), i + 1, max(1, min(ctx.jobs, nruns)))],
+                timeout_s=900)[0] == "timeout":
+            # alone it finishes, after the runs its worker had executed before it it does not: state kept by the code under test
+            v = {"class": "hang", "key": "hang:" + str(desc.get("entry", "")),
+                 "detail": "the run does not finish (900 s) when it follows the runs its worker executed before it, although it "
+                           "finishes alone: state kept between calls of the code under test leads to a loop that does not terminate"}
+            key = (check.id, v["key"])
+            rec = {"i": i, "viol": v, "desc": desc,
+                   "sequence": {"verif_seed": ctx.seed, "indices": [j for j in range(i % max(1, min(ctx.jobs, nruns)), i + 1, max(1, min(ctx.jobs, nruns)))]}}
+            (known_hit if key in open_keys else new_keys).setdefault(key, []).append(rec)
+        elif c["status"] == "stuck":
+            slow_batch.append(i)
         else:
             flaky_crashes.append((i, c["status"]))
     for key, rs in known_hit.items():
@@ -493,8 +525,8 @@ def _main(check, ctx, args, t0):
     for key, rs in list(new_keys.items()):
         r = rs[0]
         desc, v = r["desc"], r["viol"]
-        seq = None
-        if not v["class"].startswith("crash"):
+        seq = r.get("sequence")
+        if not v["class"].startswith(("crash", "hang")):
             kind, res = run_single_isolated(check, ctx, desc)
             if not (kind == "res" and res.get("viol") and res["viol"]["class"] == v["class"]):
                 # not a function of this run alone: replay the runs its worker had executed before it, in order
@@ -516,7 +548,7 @@ def _main(check, ctx, args, t0):
             reported.append(path)
             rc = 1
             continue
-        if hasattr(check, "minimise") and not v["class"].startswith("crash"):
+        if hasattr(check, "minimise") and not v["class"].startswith(("crash", "hang")):
             desc2 = minimise_isolated(check, ctx, desc, v)
             if desc2 is not None:
                 kind, res = run_single_isolated(check, ctx, desc2)
@@ -531,6 +563,12 @@ def _main(check, ctx, args, t0):
         reported.append(path)
         rc = 1
 
+    if slow_batch:
+        if rc == 0:
+            raise HarnessError("wall-clock limit exceeded (workers killed) while run(s) %s were in flight; they complete when "
+                               "repeated alone and after the runs before them: the batch was too slow for its limit" % slow_batch[:5])
+        print("note: the batch hit its wall-clock limit while run(s) %s were in flight; they complete when repeated alone (see the "
+              "violations above for what the code under test does)" % slow_batch[:5])
     if flaky_crashes:
         if rc == 0:
             raise HarnessError("run(s) %s killed their worker but complete in isolation: not deterministic" % flaky_crashes[:5])
